@@ -103,9 +103,13 @@ func (g *c11Gen) yaml() (text string, expectAccept bool) {
 	for i := 0; i < nC; i++ {
 		cs = append(cs, &c11Curve{id: id(fmt.Sprintf("c%d", i))})
 	}
-	for i, c := range cs {
+	// a random topological order: curve order[k] may only use members that come earlier in `order`;
+	// the listing order in the file is independent of it (shuffled below)
+	order := r.Perm(nC)
+	for k, ci := range order {
+		c := cs[ci]
 		kinds := []string{"linear", "steps", "pid", "function", "function"}
-		if i == 0 {
+		if k == 0 {
 			kinds = []string{"linear", "steps", "pid"}
 		}
 		c.kind = pick(r, kinds...)
@@ -114,22 +118,42 @@ func (g *c11Gen) yaml() (text string, expectAccept bool) {
 			c.sensor = pick(r, id("nosuchsensor"), "")
 			g.note("dangling-or-empty-sensor-ref")
 		}
-		switch c.kind {
-		case "function":
-			// members among earlier curves (DAG)
-			k := 1 + r.Intn(min(i, 4))
-			for _, j := range r.Perm(i)[:k] {
-				c.members = append(c.members, cs[j].id)
+		if c.kind == "function" {
+			n := 1 + r.Intn(min(k, 4))
+			for _, j := range r.Perm(k)[:n] {
+				c.members = append(c.members, cs[order[j]].id)
 			}
 		}
 	}
 	if g.hostile {
 		switch r.Intn(6) {
-		case 0: // a cycle of length L among function curves
+		case 0: // a cycle of length L among function curves; the cycle members may have further members and referrers
 			L := 1 + r.Intn(min(nC, 8))
+			cyc := r.Perm(nC)[:L]
 			for k := 0; k < L; k++ {
-				cs[k].kind = "function"
-				cs[k].members = []string{cs[(k+1)%L].id}
+				c := cs[cyc[k]]
+				if c.kind != "function" || r.Intn(2) == 0 {
+					c.members = nil
+				}
+				c.kind = "function"
+				c.members = append(c.members, cs[cyc[(k+1)%L]].id)
+				r.Shuffle(len(c.members), func(a, b int) { c.members[a], c.members[b] = c.members[b], c.members[a] })
+			}
+			// another curve aggregating several cycle members (in-degree >= 2 inside the cycle)
+			if L >= 2 && nC > L && r.Intn(2) == 0 {
+				for _, ci := range r.Perm(nC) {
+					inCycle := false
+					for _, x := range cyc {
+						if x == ci {
+							inCycle = true
+						}
+					}
+					if !inCycle {
+						cs[ci].kind = "function"
+						cs[ci].members = []string{cs[cyc[0]].id, cs[cyc[1%L]].id}
+						break
+					}
+				}
 			}
 			if L == 1 {
 				g.note("self-reference")
@@ -148,6 +172,8 @@ func (g *c11Gen) yaml() (text string, expectAccept bool) {
 			g.note("function-without-members")
 		}
 	}
+	// listing order in the file
+	r.Shuffle(len(cs), func(a, b int) { cs[a], cs[b] = cs[b], cs[a] })
 	sb.WriteString("curves:\n")
 	for i, c := range cs {
 		entry := "  - id: " + c.id + "\n"
